@@ -10,8 +10,14 @@ use parser::Parser;
 
 /// Evaluate a formula inside a string and compute it into f64.
 pub fn eval_complex(expr: String, placeholder: Complex<f64>) -> Result<Complex<f64>, ParseError> {
+    #[cfg(feature = "verif_hooks")]
+    crate::verif_hooks::tick(crate::verif_hooks::Site::ApiEnter);
     let expr = expr.split_whitespace().collect::<String>();
     let mut math_parser = Parser::new(&expr, Some(placeholder))?;
+    #[cfg(feature = "verif_hooks")]
+    crate::verif_hooks::tick(crate::verif_hooks::Site::ApiLexed);
     let ast = math_parser.parse()?;
+    #[cfg(feature = "verif_hooks")]
+    crate::verif_hooks::tick(crate::verif_hooks::Site::ApiParsed);
     Ok(eval(ast)?)
 }
